@@ -93,6 +93,20 @@ pub enum RoundMode {
 }
 
 impl RoundMode {
+    /// Returns the mode that rounds `-x` to the negation of what this mode
+    /// rounds `x` to. Modes defined in terms of positive and negative
+    /// infinity are swapped, all others are unchanged.
+    #[inline]
+    pub(crate) fn negate(self) -> RoundMode {
+        match self {
+            RoundMode::Ceil => RoundMode::Floor,
+            RoundMode::Floor => RoundMode::Ceil,
+            RoundMode::HalfCeil => RoundMode::HalfFloor,
+            RoundMode::HalfFloor => RoundMode::HalfCeil,
+            mode => mode,
+        }
+    }
+
     /// Given a `quantity` in nanoseconds and an `increment` in units of
     /// `unit`, this rounds it according to this mode and returns the result
     /// in nanoseconds.
